@@ -160,6 +160,11 @@ var Features = []Feature{
 	{Name: "pk_id", Group: "pk", Apply: func(d *DB) { d.Table("t").PK = []string{"id"} }},
 	{Name: "pk_id_a", Group: "pk", Apply: func(d *DB) { d.Table("t").PK = []string{"id", "a"} }},
 	{Name: "pk_a_id", Group: "pk", Apply: func(d *DB) { d.Table("t").PK = []string{"a", "id"} }},
+	// both table options at once (they need a primary key, hence one compound feature).
+	{Name: "pk_id_without_rowid_strict", Group: "pk", Apply: func(d *DB) {
+		t := d.Table("t")
+		t.PK, t.WithoutRowID, t.Strict = []string{"id"}, true, true
+	}},
 	{Name: "pk_autoincrement", Group: "pk", Apply: func(d *DB) { t := d.Table("t"); t.PK = []string{"id"}; t.Col("id").AutoInc = true }},
 	{Name: "idx_a", Apply: func(d *DB) { t := d.Table("t"); t.Idx = append(t.Idx, Idx{Name: "idx_a", Parts: []Part{{Col: "a"}}}) }},
 	{Name: "uq_b", Group: "bidx", Apply: func(d *DB) {
